@@ -11,7 +11,7 @@ Overlay directives (lines starting with `//@`), see DESIGN.md 2.1:
                                  text spliced between the header and the body `{`
   //@ loop <Type::fn|fn> <ordinal> ... //@ end
                                  text spliced before the loop body `{`
-  //@ proof_start <fn> / proof_end <fn> / loop_proof_start <fn> <k> / loop_proof_end <fn> <k>
+  //@ proof_start <fn> / proof_end <fn> / proof_before_tail <fn> / loop_proof_start <fn> <k> / loop_proof_end <fn> <k>
                                  `proof { ... }` text spliced as first/last statement
 
 Obligation tags inside contract / loop / post text: `/*#<id> <C..,C..>*/`.
@@ -101,7 +101,7 @@ class Overlay:
                         rest.append(p)
                 self.items.append(dict(file=rest[0], kind=rest[1], name=' '.join(rest[2:]), **opts))
                 i += 1
-            elif d in ('pre', 'post', 'contract', 'loop', 'proof_start', 'proof_end', 'loop_proof_start', 'loop_proof_end', 'loop_proof_after', 'loop_ghost_before', 'attr', 'proof_at'):
+            elif d in ('pre', 'post', 'contract', 'loop', 'proof_start', 'proof_end', 'loop_proof_start', 'loop_proof_end', 'loop_proof_after', 'loop_ghost_before', 'attr', 'proof_at', 'proof_before_tail'):
                 j = i + 1
                 buf = []
                 while j < len(lines) and lines[j].strip() != '//@ end':
@@ -132,7 +132,7 @@ class Overlay:
                     self.proofs[('proof_at', parts[1], int(parts[2]))] = dict(text=text, line=src_line, anchor=' '.join(parts[3:]))
                 elif d == 'attr':
                     self.attrs[parts[1]] = text
-                elif d in ('proof_start', 'proof_end'):
+                elif d in ('proof_start', 'proof_end', 'proof_before_tail'):
                     self.proofs[(d, parts[1], None)] = dict(text=text, line=src_line)
                 else:
                     self.proofs[(d, parts[1], int(parts[2]))] = dict(text=text, line=src_line)
@@ -418,6 +418,10 @@ def transform_fn(it: rs.Item, qual: str, ov: Overlay, log, used):
         lp = ov.loops.get((qual, k))
         if lp:
             used.add(('loop', qual, k))
+            if kw == 'for' and re.search(r'^\s*ensures\b', lp['text'], re.M):
+                # measured on verus 0.2026.09.13: `ensures` on a `for` loop inside a loop_isolation(false) function is neither
+                # checked nor assumed -- a clause written there would be counted but never discharged
+                raise ExtractError('%s: loop %d: `ensures` on a for loop is not checked by this Verus; assert after the loop instead' % (where, k))
             inserts.append((bo, splice('\n' + lp['text'] + '\n')))
             if lp.get('iter'):
                 if kw != 'for':
@@ -461,6 +465,29 @@ def transform_fn(it: rs.Item, qual: str, ov: Overlay, log, used):
     if pe:
         used.add(('proof_end', qual, None))
         inserts.append((len(body) - 1, splice(' proof {\n' + pe['text'] + '\n} ')))
+    pt = ov.proofs.get(('proof_before_tail', qual, None))
+    if pt:
+        # in front of the function's tail expression: after the last top-level `;` (or `}` of a block statement) of the body
+        used.add(('proof_before_tail', qual, None))
+        depth, last = 0, None
+        for ci in range(1, len(bm) - 1):
+            c = bm[ci]
+            if c in '{([':
+                depth += 1
+            elif c in '})]':
+                depth -= 1
+                if c == '}' and depth == 0:
+                    # a block statement (`for`/`while`/`if` without else/`match` used as a statement) also ends a statement
+                    rest = bm[ci + 1:len(bm) - 1].lstrip()
+                    if rest and not re.match(r'(else\b|[.?;,)\]=+\-*/&|<>]|as\b)', rest):
+                        last = ci
+            elif c == ';' and depth == 0:
+                last = ci
+        if last is None:
+            raise ExtractError('anchor lost: %s: body has no statement before its tail expression' % where)
+        if not bm[last + 1:len(bm) - 1].strip():
+            raise ExtractError('anchor lost: %s: body has no tail expression' % where)
+        inserts.append((last + 1, splice(' proof {\n' + pt['text'] + '\n} ')))
     for key in list(ov.proofs):
         if key[0] == 'proof_at' and key[1] == qual:
             anchor, nth = ov.proofs[key]['anchor'], key[2]
